@@ -67,6 +67,7 @@ type c08peerLog struct {
 	sentinel int  // number of datagrams received before the sentinel, -1 while not seen
 	vanished bool // (vanish) the peer has taken its one datagram and is closed and unlinked
 	notify   chan struct{}
+	onFirst  func() // run once, when the first request datagram has arrived
 }
 
 func (l *c08peerLog) reader(conn *net.UDPConn) {
@@ -85,6 +86,9 @@ func (l *c08peerLog) reader(conn *net.UDPConn) {
 		} else {
 			l.dgrams = append(l.dgrams, append([]byte{}, buf[:n]...))
 			l.times = append(l.times, now)
+			if len(l.dgrams) == 1 && l.onFirst != nil {
+				l.onFirst()
+			}
 			if l.from == nil {
 				l.from = addr
 			}
@@ -289,6 +293,15 @@ func runC08(sc *c08scenario) c08obs {
 
 	// peer and sentinel sockets (part of the descriptor baseline)
 	log := &c08peerLog{sentinel: -1, notify: make(chan struct{}, 1)}
+	// "retransmits the byte-identical request": once the first datagram is out the caller changes the packet
+	// value it passed (another identifier, one more attribute) — what is resent is what was sent, not a new encoding
+	req := sc.req
+	origID, origAttrs := req.Identifier, req.Attributes
+	defer func() { req.Identifier, req.Attributes = origID, origAttrs }() // (a scenario may be run again)
+	log.onFirst = func() {
+		req.Identifier ^= 0x55
+		req.Attributes = append(req.Attributes, &radius.AVP{Type: 18, Attribute: radius.Attribute("changed-after-the-first-send")})
+	}
 	var peer *net.UDPConn
 	var sentinelConn *net.UDPConn
 	var probe *net.UnixConn
